@@ -50,5 +50,10 @@ CHECKS = {
   "note": "Trusted: pysam for reading the input; expected set = mapped, non-supplementary records (all generated with MAPQ 60, so MAPQ-dependent filters do not apply); filtered categories are labelled by the generator.",
   "technique": "in-process monitoring of the real collector with hooked region splitting + offline conservation check (input records = reported records) on CLI outputs",
  },
+ "C02": {
+  "text": "Every cell of the gene, transcript and transcript-model count tables of CLI runs is compared with the exact rational sum of the documented weights over the assignments reported in read_assignments.tsv / transcript_model_reads.tsv (a read kept on several loci is treated as one read shared by all its features), zero is accepted only when no uniquely assigned spliced read supports the feature, stats lines are recounted (unmapped from the BAM) and TPM tables recomputed; the counter monitor logs every increment of the real counters so that the per-read total weight is measured too. Rich worlds (ambiguous, inconsistent, multi-mapped incl. ties, several chromosomes) x strategy pairs x normalisations. Sampled worlds.",
+  "note": "Trusted: weights transcribed from docs/cmd.md (vlib/oracles/weights.py); values compared at print resolution; __ambiguous/__no_feature accepted between #reads and #records. One recorded known finding (multi-locus ties counted once per locus) is recognised only when the printed value equals exactly what that mechanism yields.",
+  "technique": "offline conservation checker over output tables vs reported assignments (documented-weight reference model) + hooked counter increment log",
+ },
 }
 NOT_APPLICABLE = {}
